@@ -280,6 +280,18 @@ def run(ctx):
             text = gen.pdb_text([gen.peptide(["ALA", x, "ALA"])])
             jobs.append({"id": len(jobs) + 1, "klass": f"ALA-{x}-ALA", "args": [f"--ff={ff}"], "fs0": "absent", "fault": None,
                          "kind": "success", "input": "TEXT:" + text})
+    # ... at the chain ends under every force field, nucleic-acid strands under the force fields that define them, waters
+    for x in gen.AMINO:
+        for pos in (0, 2):
+            for ff in ffs:
+                seq = ["ALA", "ALA", "ALA"]
+                seq[pos] = x
+                jobs.append({"id": len(jobs) + 1, "klass": "-".join(seq), "args": [f"--ff={ff}"], "fs0": "absent", "fault": None, "kind": "success",
+                             "input": "TEXT:" + gen.pdb_text([gen.peptide(seq) + gen.water((6, 14, 4), resseq=101)])})
+    for kind, s_, okff in (("D", "ACGT", ["AMBER", "CHARMM", "TYL06"]), ("R", "ACGU", ["AMBER", "CHARMM", "TYL06", "PARSE"]), ("D", "GGC", ["AMBER"])):
+        for ff in okff:
+            jobs.append({"id": len(jobs) + 1, "klass": f"strand {kind} {s_}", "args": [f"--ff={ff}"], "fs0": "absent", "fault": None, "kind": "success",
+                         "input": "TEXT:" + gen.pdb_text([gen.nucleic(s_, kind), gen.water((20, 14, 4), resseq=101)])})
     for klass in CLASSES:
         jobs.append({"id": len(jobs) + 1, "klass": klass, "args": ["--ff=AMBER"] + CLASSES[klass], "fs0": "old",
                      "fault": None, "kind": "success"})
